@@ -432,3 +432,20 @@ M("c18-env-over-code", "C18", "C18.CHAIN", (RESF, "        resource = _DEFAULT_R
 M("c18-plugin-under-accumulated", "C18", "C18.CHAIN", (DEEP, "                    default_resource = default_resource.merge(plugin_resource)", "                    default_resource = plugin_resource.merge(default_resource)"))
 M("c18-no-sdk-version", "C18", "C18.CHAIN", (RESF, "        TELEMETRY_SDK_VERSION: _DEEP_SDK_VERSION,\n", ""))
 R("c18-rename-local", "C18", (RESF, "        merged_attributes = self.attributes.copy()\n        merged_attributes.update(other.attributes)", "        combined = self.attributes.copy()\n        combined.update(other.attributes)\n        merged_attributes = combined"))
+
+# ------------------------------------------------------------------ C12
+UTLS = "src/deep/utils.py"
+M("c12-update-before-convert", "C12", "C12.FAIL", (POLLF, """            self.config.tracepoints.update_new_config(response.ts_nanos, response.current_hash,
+                                                      convert_response(response.response))""", """            self.config.tracepoints.update_new_config(response.ts_nanos, response.current_hash, [])
+            self.config.tracepoints.current_config.extend(convert_response(response.response))"""))
+M("c12-no-change-clears", "C12", "C12.STATE", (TPCS, "        self._last_update = ts\n\n    def update_new_config", "        self._last_update = ts\n        self._current_hash = None\n\n    def update_new_config"))
+M("c12-hash-before-success", "C12", "C12.STATE", (TPCS, "        self._current_hash = new_hash\n        self._tracepoint_config = new_config\n", "        self._current_hash = new_hash\n        if new_config:\n            self._tracepoint_config = new_config\n"))
+M("c12-report-stale-hash", "C12", "C12.STATE", (POLLF, "current_hash=self.config.tracepoints.current_hash,", "current_hash=str(self.config.tracepoints._last_update),"))
+M("c12-timer-dies", "C12", "C12.LOOP", (UTLS, "            try:\n                self.function(*self.args, **self.kwargs)\n            except Exception:\n                logging.exception(\n                    \"Repeated function (%s) failed, will retry in %s seconds.\" % (self.name, self.interval))", "            self.function(*self.args, **self.kwargs)"))
+M("c12-initial-poll-unguarded", "C12", "C12.LOOP", (POLLF, "        try:\n            self.poll()\n        except Exception:\n            logging.exception(\"Initial poll failed. Will continue with interval.\")", "        self.poll()"))
+M("c12-captured-config", "C12", "C12.ORDER", (TPCS, "            current_hash = self._current_hash\n            new_config = self._tracepoint_config\n", ""))
+M("c12-no-lock", "C12", "C12.ORDER", (TPCS, "        with self._update_lock:\n            current_hash = self._current_hash\n            new_config = self._tracepoint_config\n            listeners_copy = self._listeners.copy()\n            for listeners in listeners_copy:\n                try:\n                    listeners.config_change(ts, old_hash, current_hash, old_config, new_config + self._custom)\n                except Exception:\n                    logging.exception(\"Error updating listener %s\", listeners)",
+                                        "        if True:\n            current_hash = self._current_hash\n            new_config = self._tracepoint_config\n            listeners_copy = self._listeners.copy()\n            for listeners in listeners_copy:\n                try:\n                    listeners.config_change(ts, old_hash, current_hash, old_config, new_config + self._custom)\n                except Exception:\n                    logging.exception(\"Error updating listener %s\", listeners)"))
+M("c12-handler-appends", "C12", "C12.APPLY", (TH, "        self._tp_config = new_config\n", "        self._tp_config = self._tp_config + new_config\n"))
+M("c12-custom-dropped", "C12", "C12.APPLY", (TPCS, "listeners.config_change(ts, old_hash, current_hash, old_config, new_config + self._custom)", "listeners.config_change(ts, old_hash, current_hash, old_config, new_config)"))
+R("c12-serial-pool", "C12", (TASK, "self._pool = ThreadPoolExecutor(max_workers=2)", "self._pool = ThreadPoolExecutor(max_workers=1)"))
